@@ -296,6 +296,14 @@ def step (d : DState) (line : String) : DState × List String :=
     ({ d with st := applyCalls weight (d.H - 1) po po d.st cs }, cs.map printCall)
   | "spec" :: "elems" :: ts =>
     (d, (specElems d.D d.H d.periodic (shapeOf d.leafIdx) (kv ts "flags" 63) (kv ts "upper" 2)).map printElem)
+  | "exec" :: "seqc" :: ts =>
+    let cs := executeSeq d.tree d.periodic (kv ts "flags" 63) (kv ts "upper" 2)
+    let po := d.tree.partsOf
+    ({ d with st := applyCalls weight (d.H - 1) po po d.st cs }, cs.map printCall)
+  | "exec" :: "ompc" :: ts =>
+    let cs := executeOmp d.tree d.periodic (kv ts "flags" 63) (kv ts "upper" 2)
+    let po := d.tree.partsOf
+    ({ d with st := applyCalls weight (d.H - 1) po po d.st cs }, cs.map printCall)
   | "exec" :: "omp" :: ts =>
     let cs := executeOmp d.tree d.periodic (kv ts "flags" 63) (kv ts "upper" 2)
     let po := d.tree.partsOf
